@@ -106,7 +106,7 @@ def Code.toks (value : Toks) : Code → Toks
   | .structNamed sp v path fields rest body push =>
     tq sp "# [ allow ( unreachable_patterns ) ] match &" ++ v.toks value ++ tq sp "{" ++ path.toks ++
       tq sp "{" ++ sepBy (tq sp ",") (fields.map fun f => f.toks ++ tq sp ":" ++ (Name.field f).toks) ++
-      (if rest then tq cs ", . ." else []) ++
+      (if !rest then [] else if fields.isEmpty then tq cs ". ." else tq cs ", . .") ++
       tq sp "} = > {" ++ body.toks value ++ tq sp "} , _ = > {" ++ push.toks value ++ tq sp "} }"
   | .tuple v binders body =>
     tq cs "# [ allow ( unreachable_patterns ) ] match &" ++ v.toks value ++ tq cs "{ (" ++
